@@ -6,6 +6,7 @@ import (
 	"context"
 	"fmt"
 	"math/rand"
+	"sync"
 	"testing"
 	"time"
 
@@ -50,6 +51,28 @@ func (m *reAddMempool) Stream(ctx context.Context, count int) []*chain.Transacti
 	return out
 }
 
+// flakyView fails ONE read of a chosen key with a transient (non-not-found) error: the builder must not treat it as
+// "key absent" (its built block must still verify identically, or the build must fail)
+type flakyView struct {
+	merkledb.View
+	mu   sync.Mutex
+	key  string
+	used bool
+}
+
+func (f *flakyView) GetValue(ctx context.Context, key []byte) ([]byte, error) {
+	f.mu.Lock()
+	hit := !f.used && f.key != "" && string(key) == f.key
+	if hit {
+		f.used = true
+	}
+	f.mu.Unlock()
+	if hit {
+		return nil, errInjectedRead
+	}
+	return f.View.GetValue(ctx, key)
+}
+
 // chain index over the blocks of one scenario, for the real TimeValidityWindow
 type buildIndex struct {
 	m map[ids.ID]*chain.ExecutionBlock
@@ -88,6 +111,7 @@ type buildLine struct {
 	Vout      *blockOutcome `json:"vout"` // what Processor.Execute (normal operation) returned for the built block
 	SameRoot  bool          `json:"sameroot"`
 	Txs       []txRec       `json:"txs"` // the built transactions (records), in block order
+	Fault     bool          `json:"fault"` // one parent read failed transiently during this build
 }
 
 func outcomeOf(w *world, out *chain.OutputBlock) (*blockOutcome, error) {
@@ -300,10 +324,29 @@ func TestVerifChainBuild(t *testing.T) {
 					anc = append(anc, txNames[id])
 				}
 			}
-			parentOut := &chain.OutputBlock{ExecutionBlock: parentBlk, View: parentView}
+			buildView := parentView
+			faultKey := ""
+			if r.Intn(5) == 0 && !bigPool && len(pool) > 0 {
+				// a transient read failure on a key some pooled transaction declares (not a balance key)
+				var cands []string
+				for _, v := range pool {
+					for _, a := range v.Actions {
+						for _, k := range a.Keys {
+							if k.Bal == "" {
+								cands = append(cands, string(keyBytes(k.Name, k.Chunks)))
+							}
+						}
+					}
+				}
+				if len(cands) > 0 {
+					faultKey = cands[r.Intn(len(cands))]
+					buildView = &flakyView{View: parentView, key: faultKey}
+				}
+			}
+			parentOut := &chain.OutputBlock{ExecutionBlock: parentBlk, View: buildView}
 			eb, out, berr := builder.BuildBlock(ctx, &block.Context{}, parentOut)
 			line := buildLine{Ev: "build", Pool: poolRecs, PoolNames: poolNames, Built: []string{}, Ancestors: anc, Prices: dims(prices),
-				Cfg: execCfg{Cores: cfg.TransactionExecutionCores, Fetch: cfg.StateFetchConcurrency}, BuildErr: errClassBuild(berr), Txs: []txRec{},
+				Cfg: execCfg{Cores: cfg.TransactionExecutionCores, Fetch: cfg.StateFetchConcurrency}, BuildErr: errClassBuild(berr), Txs: []txRec{}, Fault: faultKey != "",
 				Hdr: hdrRec{Height: st.Height + 1, Ts: st.Timestamp - shift, RootOK: true}}
 			empty := &blockOutcome{Results: []txResult{}, Reads: []string{}, Prices: dims(prices), Consumed: []int64{0, 0, 0, 0, 0}, Post: logged(st)}
 			line.Bout, line.Vout = empty, empty
@@ -414,6 +457,8 @@ func errClassBuild(err error) string {
 		return "no-txs"
 	case errorsIs(err, chain.ErrTimestampTooEarly):
 		return "too-early"
+	case errorsIs(err, errInjectedRead):
+		return "read-error"
 	}
 	return "other:" + err.Error()
 }
